@@ -96,7 +96,9 @@ func checkRefsFor(p *Program, r *Report) {
 			}
 			// not a ref record on this path (type switch said no)
 			skip := false
-			for k, v := range s.St.facts {
+			for _, k := range sortedFactKeys(s.St) {
+				v := s.St.facts[k]
+				_ = v
 				if strings.Contains(k, "assertok") && !v {
 					skip = true
 				}
@@ -303,14 +305,31 @@ func checkRefsFor(p *Program, r *Report) {
 			Pure: map[string]bool{"bytes.Compare": true, "bytes.Equal": true}, NoInlineDefault: true}
 		c, _ := runSim(p, f, cfg, nil)
 		cmpAtoms := func(s simSample) (val, tgt *Term) {
-			for k := range s.St.facts {
+			// the comparisons of the current iteration (facts about earlier
+			// iterations carry the loop's summary mark); deterministic choice
+			var keys []string
+			for _, k := range sortedFactKeys(s.St) {
+				keys = append(keys, k)
+			}
+			sort.Strings(keys)
+			better := func(old, nu *Term) bool {
+				if old == nil {
+					return true
+				}
+				oc, nc := old.containsOp("loopcur"), nu.containsOp("loopcur")
+				if oc != nc {
+					return nc
+				}
+				return nu.key < old.key
+			}
+			for _, k := range keys {
 				s.St.fterm[k].walk(func(u *Term) {
 					if u.Op == "pcall" && (u.Aux == "bytes.Compare" || u.Aux == "bytes.Equal") {
 						for _, a := range u.Args {
-							if strings.Contains(a.key, "RefRecord.Value") {
+							if strings.Contains(a.key, "RefRecord.Value") && better(val, u) {
 								val = u
 							}
-							if strings.Contains(a.key, "RefRecord.TargetValue") {
+							if strings.Contains(a.key, "RefRecord.TargetValue") && better(tgt, u) {
 								tgt = u
 							}
 						}
@@ -456,7 +475,9 @@ func checkRefsFor(p *Program, r *Report) {
 				continue
 			}
 			found := false
-			for k, v := range s.St.facts {
+			for _, k := range sortedFactKeys(s.St) {
+				v := s.St.facts[k]
+				_ = v
 				t := s.St.fterm[k]
 				if v && t != nil && t.Op == "eq" && len(t.Args) == 2 && t.Args[0].Op == "pcall" && t.Args[1].Op == "pcall" &&
 					t.Args[0].Aux == "(*objRecord).key" && t.Args[1].Aux == "(*objRecord).key" {
